@@ -44,10 +44,13 @@ WHITELIST = {
     "pure_functions": "numpy / scipy / builtin functions called without `out=`: they return new arrays or scalars and do not "
                       "modify their arguments",
     "view_functions": "numpy.real / numpy.imag / numpy.asarray / numpy.transpose may return views: the result aliases the argument",
-    "constructors": "constructors of the package create a new object that may keep references to its arguments; they are "
-                    "assumed not to modify the arguments except as listed in CONSTRUCTOR_EFFECTS (their bodies - the numerical "
-                    "kernels of the relaxation theories - are not analysed; the effect on the shared objects is what the "
-                    "snapshot correspondence of the same check observes)",
+    "constructors": "constructors of the package create a new object that may keep references to its arguments; at the call they are "
+                    "taken not to modify the arguments except as listed in CONSTRUCTOR_EFFECTS.  For the constructors of the relaxation "
+                    "tensors and of the Redfield rate matrix this is no longer an assumption: harness/translate_c15ctor.py analyses "
+                    "their __init__ with everything it calls and requires the locations written through (ham, sbi) to be exactly "
+                    "CONSTRUCTOR_EFFECTS (lemma gen_ctor_writes_as_assumed at the end of this file).  Still assumed, by name: the "
+                    "modified-Redfield and non-equilibrium Foerster tensors (outside Model.C15.api) and the small constructors of "
+                    "results and operators from new arrays (listed with reasons at the end of this file)",
     "eigenbasis_of": "basis contexts are transparent and self-restoring (property C04, proved and tied there); the protected "
                      "Hamiltonian is transformed in and back",
     "energy_units": "unit contexts restore the units (property C05)",
@@ -1071,8 +1074,10 @@ def static(repo):
             "evolutionsuperoperator.py:EvolutionSuperOperator.calculate (11 kinds) with _initialize_data, _elemental_step_*, _all_steps_time_dep, "
             "_one_step_with_dense_TimeIndep, _calculate_remainig_using_first_interval"]
     note_text = "\n".join("     %s: %s" % (k, WHITELIST[k]) for k in sorted(notes | {"external_field_branches"}))
+    import translate_c15ctor             # the constructors of the tensors: analysed, no longer assumed (harness/translate_c15ctor.py)
+    ctor_text, ctor_what = translate_c15ctor.static(repo)
     return C15_FILE % {"notes": note_text, "recover": recover_text, "items": ";\n    ".join(items),
-                       "reads": ";\n    ".join(reads), "refusals": ";\n    ".join(refusals)}, what
+                       "reads": ";\n    ".join(reads), "refusals": ";\n    ".join(refusals)} + ctor_text, what + ctor_what
 
 
 if __name__ == "__main__":
